@@ -20,6 +20,8 @@ func init() {
 	core.Register(&core.Check{
 		ID:    "C05",
 		Level: "model_checking",
+		// generous internal deadline: the run takes 1-2 minutes on an idle machine and several times that next to other jobs
+		QuickBudget: 900,
 		Rule: "history tree of all sequences of <=2 operations over all 32 property layouts (a,b in {absent,value,function,method}; _missing in {absent,method}) and of <=3 operations over 8 layouts " +
 			"(thorough: <=3 over 16 layouts, <=4 over 4) where an operation is `v := {L}`, `v := 1.bear({L})`, `v := \"s\".bear({L})`, `v := [3, 4].bear({L})`, `v := vJ.bear({L})`, `v := vJ.bro({L})`, or takes the own properties of an existing object: `v := vJ.bear(vK)`, `v := vJ.bro(vK)`, `v := Obj.bear(vK)`; in every final state every object is probed with " +
 			"(plus two further families: a property shadowing the built-in S with a non-callable _missing, and objects identified only by a private `_id` so that same-layout objects have identical public properties) " +
